@@ -40,6 +40,11 @@ def patch_relevant(pid, patch_file):
     return any(pid.upper() in READS[h] for h in touched)
 
 
+# seeded defects a *sibling* check reports only after using its whole rule budget (DESIGN s3.9): recorded in Appendix B,
+# not replayed on every thorough run (15 minutes for one case, and a verdict that depends on where the budget cuts)
+NOT_REPLAYED = {("C02", "S5-C14"): "durations replaced by differences of knot times: C02-R2 is reported, the elimination rule then does not finish in the budget"}
+
+
 def load_campaign(pid):
     """The outside changes kept under /verif/benign and /verif/seeded as further self-validation cases for one property:
     every behaviour-preserving refactoring must not be reported as a violation (pass, or analysis-broken where a rule does
@@ -56,6 +61,8 @@ def load_campaign(pid):
         if os.path.exists(pf) and os.path.exists(mf):
             meta = json.load(open(mf))
             rules = (meta.get("checks_reporting_violation") or {}).get(pid.upper())
+            if (pid.upper(), sid) in NOT_REPLAYED:
+                continue
             if rules:
                 out.append({"name": "seeded-" + sid, "patch": pf, "expect": "violation"})
     return out
